@@ -48,6 +48,12 @@ def run_property(prop, tier, seed, jobs=None, only=None):
     tasks = mod.tasks(tier)
     if only:
         tasks = [t for t in tasks if only in t["harness"]]
+    if tier != "quick":
+        # thorough: generous per-query and per-task budgets unless the task sets its own (16 workers share the cores)
+        for t in tasks:
+            lim = t.setdefault("limits", {})
+            lim.setdefault("timeout_ms", 120000)
+            lim.setdefault("wall_budget", 3600.0)
     joblist = [(prop, t["harness"], t["cfg"], t.get("limits", {}), seed) for t in tasks]
     nproc = jobs or min(16, max(1, len(joblist)))
     if nproc > 1:
